@@ -122,11 +122,14 @@ CLAIMS = {
          "(cascade removal as a fixpoint, version replacement); the same for every 2-operation history continuing from three prepared states (a node with an edge to a key that was never added, a chain of three nodes, two nodes with edges of two kinds in both directions). Thorough: 4 operations, 3 from the prepared states.",
          "Bounds as coded in harness/.../graphs/symboldg/zz_verif_c17.go. Histories are bounded (no inductive step yet); AddStruct/AddEnum/AddField composite insertions are not yet driven.",
          "DESIGN.md 4 (C17)"),
- "C20": ("Honoured-in-output kernel: for every permission string up to the stated length, if the configuration validator's own pattern (read from the struct tag, matched by the real regexp package executed symbolically) accepts it, "
+ "C20": ("Configuration gate: the real go-playground/validator, interpreted from source over the real `validate` tags of definitions.GleeceConfig, accepts 6 valid variants and rejects each of 22 single-field corruptions (unknown engine/version, malformed URL, e-mail, permission string, security scheme type/location/name, missing required fields) with a message naming the field; "
+         "for symbolic permission strings (0-4 bytes) acceptance equals a byte-loop reference, for symbolic engine (3 bytes) and version texts acceptance equals membership in the documented sets; "
+         "at the command level (engine-only) JSON5 configuration text served by a stand-in file system goes through LoadGleeceConfig: valid texts are read literally, corrupted ones make GenerateSpec/GenerateRoutes/GenerateSpecAndRoutes fail naming the field with nothing but the configuration read happening. "
+         "Honoured-in-output kernel: for every permission string up to the stated length, if the configuration validator's own pattern (read from the struct tag, matched by the real regexp package executed symbolically) accepts it, "
          "getOutputFileMod returns exactly its octal value (0644 for empty); PermissionStringToFileMod errors iff the string is not an octal numeral within 0o7777. "
          "Security schemes (apiKey and oauth2 with symbolic flows/scopes) are copied into both documents flow by flow. Info (title, description, version, terms, optional license and contact, symbolic text) and the base URL are read back from the bytes GenerateSpec returns for 3.0 and 3.1. "
          "Glob filter (engine-only): loadPackagesFiltered registers exactly the glob-matched files of the loaded packages for every subset of 3 files in 2 packages, and nothing when the load fails; a package loaded on demand afterwards (GetPackage/GetPackages, to resolve a type) is served and its files map to it, but none of them becomes a source file.",
-         "Bounds as coded in harness/.../generator/routes/zz_verif_c20.go. Stand-ins: packages.Load (returns the harness's packages or fails), the 3.0 validator and the 3.1 renderer/validator (generations they refuse are discarded; the 3.1 renderer stand-in writes the document's own version/info/servers). Outside: json5 decoding and go-playground validator semantics (reflection), doublestar globbing, file modes applied by the OS, engine/package-name selection in the templates.",
+         "Bounds as coded in harness/.../generator/routes/zz_verif_c20.go. Stand-ins: packages.Load (returns the harness's packages or fails), the 3.0 validator and the 3.1 renderer/validator (generations they refuse are discarded; the 3.1 renderer stand-in writes the document's own version/info/servers). json5 is decoded by the real library on the concretised text (host call), os.Stat has an empty-file-system stand-in. Outside: doublestar globbing, file modes applied by the OS, engine/package-name selection in the templates.",
          "DESIGN.md 4 (C20)"),
 }
 
